@@ -64,6 +64,7 @@ Definition map_op {A B} (f : A -> B) (o : op A) : op B :=
   | UStart c n u => UStart c n u
   | UPatch c n u a b body => UPatch c n u a b (f body)
   | UCommit c n u => UCommit c n u
+  | UCommitRaced c n u a b body => UCommitRaced c n u a b (f body)
   | Create n w => Create n (map_stream f w)
   | Refresh n r st w1 w2 pl => Refresh n r st (map_stream f w1) (map_stream f w2) pl
   | Drain e => Drain e
